@@ -9,7 +9,7 @@ SM = "src/smtmapping.rs"
 UNIT = Unit(
     name="seal", lemma_obs=['lemma_chain_next'], uses="group_core_axioms",
     prelude=["core.rs", "raw.rs", "iter.rs", "crypto.rs", "state_abs.rs"],
-    lemmas=["sums.rs", "iterlem.rs", "coinsview.rs", "tips.rs", "apply.rs", "header.rs", "txroot_opaque.rs", "seal_opaque.rs", "stateinv.rs", "batch_opaque.rs", "sealenv_opaque.rs", "seal_def.rs", "feemul.rs"],
+    lemmas=["sums.rs", "iterlem.rs", "coinsview.rs", "tips.rs", "apply.rs", "header.rs", "txroot_opaque.rs", "seal_opaque.rs", "stateinv.rs", "batch_opaque.rs", "sealenv_opaque.rs", "chaininv.rs", "chainlem.rs", "seal_def.rs", "feemul.rs"],
     items=[
         TypeItem(S, "struct", "UnsealedState"),
         TypeItem(S, "struct", "SealedState", subst=[("(UnsealedState<C>, Option<ProposerAction>)", "(pub UnsealedState<C>, pub Option<ProposerAction>)")]),
@@ -63,7 +63,14 @@ UNIT = Unit(
         Fn(SM, "val_iter", impl="SmtMapping", mode="assume", wrap=SMT_WRAP, sig_subst=[("impl Iterator<Item = V> + '_", "Vec<V>")], **smt_val_iter()),
         Fn(S, "seal", impl="UnsealedState", home="C06", implicit_props=("C09", "C06", "C16"), rewrites=[("MUTSELF",)], **st_seal_full(),
            injects=[Inject(("after", "this = crate::melmint::preseal_melmint(this);"), "proof { lemma_two_pools(this); } let ghost ps1 = this;"),
-                    Inject("before_tail", """proof { broadcast use axiom_reward_not_marker; if !deposit_legacy(self.network, self.height) {
+                    Inject("before_tail", """proof { if hinv(self) { broadcast use axiom_reward_inj;
+                        lemma_young_heights(self.coins@.coins, ps1.coins@.coins, self.height); lemma_ids_new_rewards(self.coins@.coins, ps1.coins@.coins, self.height.0 as int);
+                        assert(heights_le(this.coins@.coins, this.height)) by { assert forall|id: CoinID| this.coins@.coins.contains_key(id) implies (#[trigger] this.coins@.coins[id]).height.0 <= this.height.0 by {
+                            if id != spec_proposer_reward(self.height) { assert(ps1.coins@.coins.contains_key(id) && this.coins@.coins[id] == ps1.coins@.coins[id]); } } }
+                        assert(rewards_below(this.coins@.coins, this.height.0 + 1)) by { assert forall|hh: BlockHeight| this.coins@.coins.contains_key(#[trigger] spec_proposer_reward(hh)) implies hh.0 < this.height.0 + 1 by {
+                            if hh != self.height { assert(spec_reward_hash(hh) != spec_reward_hash(self.height)); assert(ps1.coins@.coins.contains_key(spec_proposer_reward(hh))); } } }
+                        assert(hinv_sealed(this)); } }
+                    proof { broadcast use axiom_reward_not_marker; if !deposit_legacy(self.network, self.height) {
                         assert forall|h: TxHash| self.coins@.coins.contains_key(#[trigger] spec_marker(h)) implies this.coins@.coins.contains_key(spec_marker(h)) && this.coins@.coins[spec_marker(h)] == self.coins@.coins[spec_marker(h)] by {
                             assert(ps1.coins@.coins.contains_key(spec_marker(h))); assert(spec_marker(h) != spec_proposer_reward(ps1.height)); }
                         if markers_ok(self.coins@.coins) { broadcast use axiom_marker_not_output;
@@ -115,13 +122,13 @@ UNIT = Unit(
            ensures=[C("noop", "res is Err ==> *final(self) == *old(self)", "C02"),
                     C("ok", "res is Ok ==> batch_result(*old(self), seq![*tx], *final(self))", "C02", "C06", note="a single transaction is the batch of length one")]),
         Fn(S, "apply_block", impl="SealedState", home="C06", implicit_props=("C09", "C06", "C16"),
-           requires=[C("pre", "chain_ok(self.0) && state_inv(self.0) && spec_builtin_pools(self.0) && pools_ok(self.0.pools@) && builtins_if_present(self.0) && self.0.height.0 < u64::MAX"),
+           requires=[C("pre", "chain_ok(self.0) && state_inv(self.0) && spec_builtin_pools(self.0) && pools_ok(self.0.pools@) && builtins_if_present(self.0) && self.0.height.0 < u64::MAX && hinv_sealed(self.0)"),
                      C("env", "forall|n: UnsealedState<C>, txx: Seq<Transaction>| next_rel(self.0, n) && txx.to_set() == block.transactions@ ==> #[trigger] batch_env(n, txx)",
                        note="C09 envelope: the arithmetic envelopes of batch application hold for the block's transactions"),
-                     C("env2", "forall|n: UnsealedState<C>, txx: Seq<Transaction>, mid: UnsealedState<C>| next_rel(self.0, n) && txx.to_set() == block.transactions@ && #[trigger] batch_result(n, txx, mid) ==> seal_env(mid) && reward_fresh(mid) && (spec_tip(mid.network, mid.height, 950000) ==> tip909_env(spec_preseal(mid)))",
+                     C("env2", "forall|n: UnsealedState<C>, txx: Seq<Transaction>, mid: UnsealedState<C>| next_rel(self.0, n) && txx.to_set() == block.transactions@ && #[trigger] batch_result(n, txx, mid) ==> seal_env(mid) && (spec_tip(mid.network, mid.height, 950000) ==> tip909_env(spec_preseal(mid)))",
                        note="C09 envelope: the arithmetic envelopes of the settlement phases of sealing hold for the block's transactions")],
            ensures=[C("accepted", "res is Ok ==> spec_header(res->Ok_0.0) == block.header && res->Ok_0.1 == block.proposer_action && block_applied(self.0, *block, res->Ok_0.0)", "C06", "C03"),
-                    C("inv_next", "res is Ok ==> chain_ok(res->Ok_0.0) && state_inv(res->Ok_0.0) && spec_builtin_pools(res->Ok_0.0) && pools_ok(res->Ok_0.0.pools@) && builtins_live(res->Ok_0.0) && (spec_tip(res->Ok_0.0.network, res->Ok_0.0.height, 180000) ==> builtins_if_present(res->Ok_0.0))", "C16", "C20", "C07",
+                    C("inv_next", "res is Ok ==> chain_ok(res->Ok_0.0) && state_inv(res->Ok_0.0) && spec_builtin_pools(res->Ok_0.0) && pools_ok(res->Ok_0.0.pools@) && builtins_live(res->Ok_0.0) && (spec_tip(res->Ok_0.0.network, res->Ok_0.0.height, 180000) ==> builtins_if_present(res->Ok_0.0)) && hinv_sealed(res->Ok_0.0)", "C16", "C20", "C07", "C09",
                       note="the state invariants that apply_block requires of the current sealed state hold again of the state it returns: with GenesisConfig::realize + seal as the base case they hold along every chain of accepted blocks (modulo the assumed envelopes / freshness preconditions; before TIP-902 an ordinary ERG/SYM pool may be emptied, so `builtins_if_present` is inductive only from TIP-902 on)"),
                     C("locked", "res is Ok ==> forall|k: TxHash| self.0.stakes@.contains_key(k) && self.0.stakes@[k].e_post_end >= (self.0.height.0 + 1) / 200000 ==> #[trigger] res->Ok_0.0.stakes@.contains_key(k)", "C13",
                       note="a registered stake stays registered (so its coin stays locked: check_tx_validity#unlocked) in every block up to and including the last block of the epoch numbered by its end field; next_unsealed#next drops it exactly in the first block of the following epoch"),
